@@ -192,6 +192,24 @@ func c12R1(c *Ctx) {
 			continue
 		}
 		call, ok := res.(TCall)
+		if !cp.IsNil && (!ok || call.Fun == nil) {
+			// a map/slice flavour converted in place (an inlined private helper): the same element-wise construction the From-constructors use
+			_, isMap := cp.T.Underlying().(*types.Map)
+			_, isSlice := cp.T.Underlying().(*types.Slice)
+			if isMap || isSlice {
+				if msg := c.elementWiseArm(c.view(fd), p, cp.Assert, isSlice); msg != "" {
+					ob.Fail("arm neither calls the From-constructor nor builds the container element-wise: %s", msg)
+				} else {
+					ob.Ok("flavour is converted element-wise into a fresh container (same construction as the From-constructor)")
+				}
+				if isMap {
+					seenKinds["object"]++
+				} else {
+					seenKinds["list"]++
+				}
+				continue
+			}
+		}
 		if !ok || call.Fun == nil {
 			ob.Fail("arm does not return a constructor call")
 			continue
@@ -339,6 +357,108 @@ func caseTypes(c *Ctx, ts *ast.TypeSwitchStmt, pred func(types.Type) bool) []str
 	return out
 }
 
+// elementWiseArm: the path builds a container element-wise from the operand (seen as `operand`): effects are only the creation of
+// the container (Init, installation of a fresh spine), exactly one in-order loop over the operand whose every iteration is one
+// unconditional installation of the visited entry — Add(value) / Set(key, value) on the result, or the direct forms
+// result.val[key] = parseVal(value), result.val = append(result.val, parseVal(value)) — and the result is returned.
+func (c *Ctx) elementWiseArm(v *sxView, p *Path, operand Term, isList bool) string {
+	verb := "Set"
+	if isList {
+		verb = "Add"
+	}
+	if p.End != "return" || len(p.Vals) != 1 {
+		return "arm does not return the built container"
+	}
+	result := p.Vals[0]
+	var loop *LoopRec
+	nLoop, spread := 0, 0
+	for _, s := range p.Effects() {
+		switch s.Kind {
+		case "loop":
+			loop = s.Loop
+			nLoop++
+		case "call":
+			if s.Call != nil && s.Call.Fun != nil && s.Call.Fun.Name() == "Init" {
+				continue
+			}
+			// result.Add(operand...): the variadic Add is itself the in-order element-wise insertion (C05/C12.R4)
+			if isList && s.Call != nil && s.Call.Fun != nil && s.Call.Fun.Name() == "Add" && s.Call.Site != nil && s.Call.Site.Ellipsis.IsValid() && s.Call.Recv != nil && sameContainer(s.Call.Recv, result) &&
+				len(s.Call.Args) == 1 && (sameTerm(s.Call.Args[0], operand) || sameTerm(s.Call.Args[0], TProj{operand, 0})) {
+				spread++
+				continue
+			}
+			return "arm is not: fresh container; one loop over the operand; return it (unexpected effect " + c.stepStr(s) + ")"
+		case "store":
+			// only the installation of a spine into the container being built
+			base := s.LHS
+			for {
+				if sel, ok := base.(TSel); ok {
+					base = sel.X
+					continue
+				}
+				break
+			}
+			if !sameContainer(base, result) {
+				return "store outside the container being built: " + c.stepStr(s)
+			}
+		default:
+			return "arm is not: fresh container; one loop over the operand; return it (unexpected effect " + c.stepStr(s) + ")"
+		}
+	}
+	if nLoop == 0 && spread == 1 {
+		return ""
+	}
+	if nLoop != 1 || spread != 0 {
+		return "arm is not: fresh container; one loop over the operand; return it (" + itoa(nLoop) + " loops)"
+	}
+	if r := v.asRange(loop); r != nil {
+		loop = r
+	}
+	over := loop.Over
+	if loop.Range == nil || !(sameTerm(over, operand) || sameTerm(over, TProj{operand, 0})) {
+		return "the loop does not range over the operand"
+	}
+	if len(loop.Iter) != 1 || len(loop.Iter[0].Conds()) != 0 || len(loop.Iter[0].Effects()) != 1 || (loop.Iter[0].End != "fall" && loop.Iter[0].End != "continue") {
+		return "the element-wise copy loop is not one unconditional " + verb + " per entry"
+	}
+	isVal := func(t Term) bool { return loop.Value != nil && isParamTerm(t, loop.Value) }
+	isKey := func(t Term) bool { return loop.Key != nil && isParamTerm(t, loop.Key) }
+	normalised := func(t Term) bool { // parseVal(value)
+		call, ok := t.(TCall)
+		return ok && call.Fun != nil && call.Fun.Name() == "parseVal" && call.Fun.Pkg() == c.Types && len(call.Args) == 1 && isVal(call.Args[0])
+	}
+	resultSpine := func(t Term) bool {
+		sel, ok := t.(TSel)
+		return ok && sameContainer(sel.X, result)
+	}
+	s := loop.Iter[0].Effects()[0]
+	good := false
+	switch s.Kind {
+	case "call":
+		if s.Call != nil && s.Call.Fun != nil && s.Call.Fun.Name() == verb && s.Call.Recv != nil && sameContainer(s.Call.Recv, result) {
+			args := unpack(s.Call.Args)
+			if isList {
+				good = len(args) == 1 && isVal(args[0])
+			} else {
+				good = len(args) == 2 && isKey(args[0]) && isVal(args[1])
+			}
+		}
+	case "store":
+		if ix, ok := s.LHS.(TIndex); ok && resultSpine(ix.X) && isKey(ix.I) && normalised(s.RHS) {
+			good = true
+		}
+		if isList && resultSpine(s.LHS) {
+			if ap, ok := s.RHS.(TBuiltin); ok && ap.Name == "append" && len(ap.Args) == 2 && resultSpine(ap.Args[0]) && normalised(ap.Args[1]) {
+				good = true
+			}
+		}
+	}
+	if !good {
+		return "loop body is not exactly one " + verb + " of the range entry on the result"
+	}
+	return ""
+}
+
 func c12R2(c *Ctx) {
 	pv := c.NeedDecl("C12.R2", "parseVal")
 	if pv == nil {
@@ -399,62 +519,11 @@ func c12R2(c *Ctx) {
 			done[tname] = true
 			n++
 			ob := c.Ob("C12.R2", spec.ctor+"/case "+tname, posOfNode(p.Node))
-			var loop *LoopRec
-			nLoop := 0
-			bad := ""
-			for _, s := range p.Effects() {
-				switch s.Kind {
-				case "loop":
-					loop = s.Loop
-					nLoop++
-				case "call":
-					if s.Call != nil && s.Call.Fun != nil && s.Call.Fun.Name() == "Init" {
-						continue
-					}
-					bad = "unexpected effect " + c.stepStr(s)
-				case "store":
-					// only the installation of a spine into the container being built
-					base := s.LHS
-					for {
-						if sel, ok := base.(TSel); ok {
-							base = sel.X
-							continue
-						}
-						break
-					}
-					if p.End != "return" || len(p.Vals) != 1 || !sameContainer(base, p.Vals[0]) {
-						bad = "store outside the container being built: " + c.stepStr(s)
-					}
-				}
+			if msg := c.elementWiseArm(c.view(fd), p, cp.Assert, spec.list); msg != "" {
+				ob.Fail("%s", msg)
+			} else {
+				ob.Ok("copies element-wise: one " + spec.verb + " (or direct parseVal installation) per entry of the operand, in range order, into the fresh container that is returned")
 			}
-			if bad != "" || nLoop != 1 || p.End != "return" || len(p.Vals) != 1 {
-				ob.Fail("arm is not: fresh container; one loop over the operand; return it (%s)", bad)
-				continue
-			}
-			result := p.Vals[0]
-			if r := c.view(fd).asRange(loop); r != nil {
-				loop = r
-			}
-			over := loop.Over
-			if loop.Range == nil || !(sameTerm(over, cp.Assert) || sameTerm(over, TProj{cp.Assert, 0})) {
-				ob.Fail("the loop does not range over the operand")
-				continue
-			}
-			if len(loop.Iter) != 1 || len(loop.Iter[0].Conds()) != 0 || len(loop.Iter[0].Effects()) != 1 || (loop.Iter[0].End != "fall" && loop.Iter[0].End != "continue") {
-				ob.Fail("the element-wise copy loop is not one unconditional %s per entry", spec.verb)
-				continue
-			}
-			s := loop.Iter[0].Effects()[0]
-			good := s.Kind == "call" && s.Call != nil && s.Call.Fun != nil && s.Call.Fun.Name() == spec.verb && s.Call.Recv != nil && sameContainer(s.Call.Recv, result)
-			if good {
-				args := unpack(s.Call.Args)
-				if spec.list {
-					good = len(args) == 1 && loop.Value != nil && isParamTerm(args[0], loop.Value)
-				} else {
-					good = len(args) == 2 && loop.Key != nil && loop.Value != nil && isParamTerm(args[0], loop.Key) && isParamTerm(args[1], loop.Value)
-				}
-			}
-			ob.Check(good, "copies element-wise: one "+spec.verb+" per entry of the operand, in range order, into the container that is returned", "loop body is not exactly one "+spec.verb+" of the range entry on the result")
 		}
 		if !hasDefault {
 			c.Ob("C12.R2", spec.ctor+"/default", fd.Pos()).Fail("no path for unsupported flavours")
@@ -659,7 +728,7 @@ func c12R4(c *Ctx) {
 			seen[v] = true
 			switch x := v.(type) {
 			case *ssa.Call:
-				if cal := x.Call.StaticCallee(); cal != nil && cal.Pkg == a.pkg && types.Identical(cal.Signature.Results().At(0).Type(), field) && x.Call.Signature().Results().Len() == 1 {
+				if cal := x.Call.StaticCallee(); cal != nil && a.inPkg(cal) && types.Identical(cal.Signature.Results().At(0).Type(), field) && x.Call.Signature().Results().Len() == 1 {
 					return true, "result of " + cal.Name()
 				}
 				return false, "result of a call that is not a field producer"
